@@ -12,3 +12,6 @@ import StreamzVerif.Props.C05
 import StreamzVerif.Model.RateLimit
 import StreamzVerif.Proofs.RateLimit
 import StreamzVerif.Props.C13
+import StreamzVerif.Model.Source
+import StreamzVerif.Proofs.Source
+import StreamzVerif.Props.C18
